@@ -46,7 +46,8 @@ def fold_cases(draw):
             u = draw(st.floats(-1e3, 1e3))
         else:
             u = draw(st.floats(-1e6, 1e6))
-        coords.append({"lo": lo, "w": w, "u": u, "kind": kind})
+        # one-sided limits: only the lower, only the upper, or no finite limit at all on this coordinate
+        coords.append({"lo": lo, "w": w, "u": u, "kind": kind, "open": draw(st.sampled_from([None, None, None, None, "upper", "lower", "both"]))})
     return {"seed": 0, "coords": coords, "which": draw(st.sampled_from(["bounds", "bounds", "gibbs-boundary", "gibbs-nonneg"]))}
 
 
@@ -83,8 +84,11 @@ def body_folds(case, ctx):
         if c["kind"] == "wall":
             theta[i] = l if int(c["u"]) % 2 == 0 and c["u"] in (0.0,) else (h if c["u"] == 1.0 else theta[i])
     which = case["which"]
+    opens = [c.get("open") if which == "bounds" else None for c in case["coords"]]
     if which == "bounds":
-        b = Bounds(lower=lo.copy(), upper=hi.copy())
+        lo_b = np.array([-np.inf if o in ("lower", "both") else v for o, v in zip(opens, lo)])
+        hi_b = np.array([np.inf if o in ("upper", "both") else v for o, v in zip(opens, hi)])
+        b = Bounds(lower=lo_b, upper=hi_b)
         r1 = np.asarray(b.reflect(theta.copy()), dtype=float)
         r2, sign = b.reflect_momenta(theta.copy())
         r2, sign = np.asarray(r2, dtype=float), np.asarray(sign, dtype=float)
@@ -111,6 +115,20 @@ def body_folds(case, ctx):
                 raise Violation("fold:nonneg", f"non-negative proposal for raw draw {t!r} is {r!r}")
             if abs(t) != t:
                 max_folds = max(max_folds, 1)
+            continue
+        if opens[i] is not None:
+            # a single finite limit is a mirror; no finite limit leaves the point alone; the momentum flips with the mirror image
+            if opens[i] == "both":
+                want_r, flipped = t, False
+            elif opens[i] == "upper":
+                want_r, flipped = (t, False) if t >= l else (float(2 * Fraction(l) - Fraction(t)), True)
+            else:
+                want_r, flipped = (t, False) if t <= h else (float(2 * Fraction(h) - Fraction(t)), True)
+            if not np.isfinite(r) or abs(r - want_r) > 8 * EPS * (abs(t) + abs(l) + abs(h)):
+                raise Violation("fold:one-sided", f"theta={t!r} with limits ({'-inf' if opens[i] in ('lower', 'both') else l!r}, {'inf' if opens[i] in ('upper', 'both') else h!r}) is mapped to {r!r}, expected {want_r!r}")
+            if signs is not None and float(signs[i]) != (-1.0 if flipped else 1.0):
+                raise Violation("fold:momentum-sign", f"theta={t!r}, one-sided limit: momentum factor {signs[i]!r}, mirrored: {flipped}")
+            ctx.event("one-sided-limit")
             continue
         exact, folds, quotient = exact_fold(t, l, h)
         max_folds = max(max_folds, abs(folds))
